@@ -595,7 +595,7 @@ def check_twin(case):
     sspec = bspec.get("scale")
     scale_kw = {k: v for k, v in (sspec or {}).items() if k != "alias"}
     scale_kw_s = _sparse("scale", scale_kw, sparse)
-    bank_kw = {k: v for k, v in bspec.items() if k not in ("alias", "scale")}
+    bank_kw = {k: v for k, v in bspec.items() if k not in ("alias", "scale", "numtype")}
     bank_kw_s = _sparse("bank", bank_kw, sparse)
     bank_cls = getattr(filters, BANK_CLASS[bspec["alias"]])
     twin_error = None
